@@ -80,6 +80,11 @@ var pegScopedFlags = []string{"est>exprRoot: DisableStmts=true DisableNDice=true
 // command end where a number begins (`力量60` is the name 力量 followed by the value 60; C18: exactly the written name).
 var pegDigitFree = []string{"st_name1", "st_name1r.0", "st_name2r.0"}
 
+// pegAltBefore: "<rule>: A before B" — in the rule's ordered choice the alternatives that start with rule A are tried
+// before those that start with rule B.  A namespaced st name (`射击:弓箭`) must be tried before a plain name followed by
+// ':' — otherwise `射击:弓箭40` is read as the name 射击 with the value `弓箭40` (C18: exactly the written name).
+var pegAltBefore = []string{"st_assign: st_name2 before st_name2r", "st_assign: st_name1 before st_name2r", "st_assign: st_name1 before st_name1r"}
+
 // jsonInt / jsonFloat / jsonStr: the value the JSON document held by b has at a tag path such as "t", "v", "v.expr"
 // (encoding/json document model of dsvc: what Marshal wrote at a path is what Unmarshal reads there).
 func jsonInt(b []byte, path string) IntType   { panic("spec only") }
